@@ -30,7 +30,9 @@ Record ncase := mkNCase {
   (* block-header tip height at the last sample *)
   n_final_hdr_tip : Z;
   (* the honest node is reported banned at the last sample *)
-  n_honest_banned : bool
+  n_honest_banned : bool;
+  (* tip height of the honest chain at the end *)
+  n_final_honest_tip : Z
 }.
 
 Definition cp_interval := 1000.
@@ -57,14 +59,18 @@ Definition has_f15 (c : ncase) : bool :=
 Definition has_unprovable_liar (c : ncase) : bool :=
   existsb (fun fl => let '(flags, _) := fl in bit flags 2 && bit flags 4 && bit flags 8) (n_filter_lies c).
 
-(* F-C04-2 "silent sync peer": a sync peer that never answers getheaders but
-   keeps announcing blocks is never replaced: every announcement makes the
-   client send it another getheaders, which moves btcd's stall deadline for
-   the headers answer (90 s) forward again, and neutrino has no stall
-   detection of its own; header sync does not even start although the honest
-   peer is connected.  Visible when the honest chain keeps growing. *)
+(* F-C04-2 "silent peer that announces": a peer that never answers getheaders
+   but keeps announcing blocks is never dropped: every announcement makes
+   the client send it another getheaders, which moves btcd's stall deadline
+   for the headers answer (90 s) forward again, and neutrino has no stall
+   detection of its own.  As the sync peer it keeps header sync from even
+   starting; as the first announcer of a block it swallows the only
+   getheaders the client sends for that block (lastRequested), so the client
+   stops following the honest chain - although the honest peer is connected
+   all the time.  Visible when the honest chain keeps growing: the block
+   header tip stays below the honest tip. *)
 Definition has_silent_sync (c : ncase) : bool :=
-  n_silent_hdr c && n_growing c && (n_final_hdr_tip c <? n_chain_len c).
+  n_silent_hdr c && n_growing c && (n_final_hdr_tip c <? n_final_honest_tip c).
 
 (* some node lies in the cfheaders it serves *)
 Definition has_cfheaders_liar (c : ncase) : bool :=
